@@ -48,6 +48,11 @@ func c02Configs(thorough bool) []c01Config {
 		addS("S-byz1-equivocate-R1-crash1-dev1", 1, 1, 1, 1, "equivocate", "")
 		add("B-nobyz-R0-crash1-bfs4", -1, 0, 1, "bfs", 0, 4)
 		add("C-byz3-R0-crash1-bfs4", 3, 0, 1, "bfs", 0, 4)
+		// two heights: crash+restart (between and inside steps, also right before Finalize)
+		// while committing height 1, entering height 2 and voting there; the WALs then hold
+		// records of both heights and the block store holds block 1
+		add("H2-nobyz-R1-crash1-dev1", -1, 1, 1, "dev", 1, 0)
+		cs[len(cs)-1].Heights = 2
 		return cs
 	}
 	addS("S-byz3-own-R2-crash1-dev1", 3, 2, 1, 1, "own", "")
@@ -65,6 +70,14 @@ func c02Configs(thorough bool) []c01Config {
 		addS("B3-byz3-"+st+"-R3-crash2-dev2", 3, 3, 2, 2, st, "B3")
 	}
 	addS("S-byz1-equivocate-R1-crash2-dev2", 1, 1, 2, 2, "equivocate", "")
+	add("H2-nobyz-R1-crash2-dev2", -1, 1, 2, "dev", 2, 0)
+	cs[len(cs)-1].Heights = 2
+	add("H2-byz3-R1-crash2-dev2", 3, 1, 2, "dev", 2, 0)
+	cs[len(cs)-1].Heights = 2
+	addS("H2-byz3-own-R1-crash2-dev2", 3, 1, 2, 2, "own", "")
+	cs[len(cs)-1].Heights = 2
+	add("H3-nobyz-R1-crash1-dev1", -1, 1, 1, "dev", 1, 0)
+	cs[len(cs)-1].Heights = 3
 	add("B-nobyz-R0-crash2-bfs6", -1, 0, 2, "bfs", 0, 6)
 	add("C-byz3-R0-crash1-bfs6", 3, 0, 1, "bfs", 0, 6)
 	add("C-byz1-R0-crash1-bfs6", 1, 0, 1, "bfs", 0, 6)
